@@ -39,6 +39,10 @@ class StepBudget(Exception):
     pass
 
 
+class Hang(BaseException):
+    """A virtual process did not return within the wall-clock deadline (non-termination)."""
+
+
 # ----------------------------------------------------------------------------- processes
 class VProc:
     _ids = 0
@@ -274,7 +278,12 @@ class World:
         self.cur = p
         self._set_environ(p.env)
         try:
-            p.rc = self._dispatch_jade(argv)
+            import threading as _t
+
+            if _t.current_thread() is _t.main_thread():
+                p.rc = self.with_deadline(lambda: self._dispatch_jade(argv))
+            else:
+                p.rc = self._dispatch_jade(argv)
         finally:
             p.done = True
             self.cur = prev
@@ -326,7 +335,12 @@ class World:
         p.blocked = None
         self.main_event.clear()
         p.resume.set()
-        self.main_event.wait()
+        if not self.main_event.wait(self.deadline_s):
+            self._abandon(p)
+            self.cur = prev
+            if prev is not None:
+                self._set_environ(prev.env)
+            raise Hang("virtual process %s did not yield or finish within %s s" % (p.name, self.deadline_s))
         self.cur = prev
         if prev is not None:
             self._set_environ(prev.env)
@@ -335,6 +349,33 @@ class World:
             if not isinstance(e, Exception):
                 raise e  # jsym control flow raised inside the virtual process
             raise WorldError("virtual process %s died of %r" % (p.name, e)) from e
+
+    def _abandon(self, p):
+        """Stop a spinning virtual process: raise ProcessKilled asynchronously in its thread."""
+        import ctypes
+
+        p.kill = True
+        p.dead = True
+        if p.thread is not None and p.thread.is_alive():
+            ctypes.pythonapi.PyThreadState_SetAsyncExc(ctypes.c_ulong(p.thread.ident), ctypes.py_object(ProcessKilled))
+            self.main_event.clear()
+            self.main_event.wait(5)
+        p.done = True
+
+    def with_deadline(self, fn):
+        """Run fn on the calling (scheduler) thread under the wall-clock deadline."""
+        import signal
+
+        def on_alarm(*_):
+            raise Hang("command did not return within %s s" % self.deadline_s)
+
+        old = signal.signal(signal.SIGALRM, on_alarm)
+        signal.setitimer(signal.ITIMER_REAL, self.deadline_s)
+        try:
+            return fn()
+        finally:
+            signal.setitimer(signal.ITIMER_REAL, 0)
+            signal.signal(signal.SIGALRM, old)
 
     def block(self, reason):
         """Called on a virtual-process thread: hand the baton back to the scheduler."""
@@ -832,4 +873,5 @@ def install():
 
 
 World.logging_real = False
+World.deadline_s = 10
 World.poll_fixpoint = True
